@@ -44,7 +44,7 @@ def bounds(tier):
     return {"input size": "k*max_stride x l*max_stride for ALL integers k, l >= 1 (two independent calls)", "batch": [1, 2],
             "unet grid": "max_stride {8,16[,32]} x output_stride {1,2,4} x stem_stride {None,2[,4]} x filters_rate {2,1.5} x convs_per_block {1,2[,3]} x middle_block x up_interpolate",
             "convnext grid": "arch {tiny, custom 4-stage} x stem_patch_stride {2,4} x output_stride {1,2,4} x up_interpolate x convs_per_block {1,2}",
-            "heads": "single_instance, centered_instance, centroid (stride = backbone output stride), bottomup (confmaps at the output stride, pafs at 1x or 2x of it)"}
+            "heads": "single_instance, centered_instance, centroid (stride = backbone output stride), bottomup (confmaps at the output stride with pafs at 1x or 2x of it, and pafs at the output stride with confmaps at 2x)"}
 
 
 # ---------------------------------------------------------------------- configuration grid
@@ -54,6 +54,8 @@ def _heads(os_, max_stride):
     for ps in (os_, 2 * os_):
         if ps < max_stride:  # the decoder delivers feature maps at strides max_stride/2 ... output_stride; the bottleneck itself is not an output
             out.append(("bottomup", {"confmaps": cm(os_), "pafs": {"edges": EDGES, "sigma": 4.0, "output_stride": ps, "loss_weight": 1.0}}))
+    if 2 * os_ < max_stride:  # ... and the other way round: the FIRST head (confidence maps) coarser than the second
+        out.append(("bottomup", {"confmaps": cm(2 * os_), "pafs": {"edges": EDGES, "sigma": 4.0, "output_stride": os_, "loss_weight": 1.0}}))
     return out
 
 
